@@ -339,6 +339,11 @@ func (cl *Loader) decode(cm map[string]interface{}) (*configDefinition, error) {
 		TagName:          "",
 	})
 
+	// YAML allows keys that are not strings, the decoder does not
+	for k, v := range cm {
+		cm[k] = stringKeyed(v)
+	}
+
 	err := md.Decode(cm)
 	if err != nil {
 		return nil, err
